@@ -138,7 +138,7 @@ impl<O: PackRecipient + 'static + ?Sized> ContentPackCreator<O> {
             2,
         ) - 1;
         #[cfg(jubako_verif)]
-        let nb_threads = crate::verif::knob("creator_workers", nb_threads).max(1);
+        let nb_threads = crate::verif::knob("creator_workers", nb_threads);
         let cluster_writer =
             ClusterWriterProxy::new(file, compression, nb_threads, Arc::clone(&progress));
         Ok(Self {
